@@ -3,7 +3,35 @@
    Nothing in this file looks at the representation of String: every operation is a pure
    function on lists.  [pre] is the domain of the property (indices valid, arguments are bytes,
    operands of the C-string based searches are NUL-free byte strings); outside it the reference is silent
-   ([spec_step] = None, printed as "! not-accepted"). *)
+   ([spec_step] = None, printed as "! not-accepted").
+
+   What [pre] restricts, operation by operation:
+   * total on byte strings (embedded NUL, 0x80..0xff included): construction, attach, copy/assign,
+     append/prepend (also from the own text), resize/reserve/clear, poke, replace(char,char), case mapping,
+     trim (only the [chars] argument is a C string), substr, join, ==, == literal, compare, compare(n),
+     compareIgnoreCase, compareIgnoreCase(n), equalsIgnoreCase, equalsIgnoreCase(n), find(char),
+     findLast(char), startsWith, endsWith, length.
+   * NUL-free VALUE required (the operation is built on strstr / strpbrk / strchr, the "C-string based
+     searches" of the quantifier): replace(String,String) (text and needle), token(char) and
+     token(set), split (List and HashSet), find(char, start), find/findOneOf/findLast/findLastOf of a
+     C-string argument, printf with the own text as "%s" argument, and the static const char*
+     helpers (their arguments are C strings by type).  On a value with an embedded NUL the code
+     stops searching at that byte (e.g. replace "b" by "x" in 61 62 00 61 62 gives 61 78 00 61 62,
+     split of 61 2c 62 00 63 2c 64 at 2c gives 61 | 62 00 63 2c 64); the reference does not say what
+     the answer should be there.
+
+   Choices of this reference where the property text is silent (they follow the documented or evident
+   behaviour of the code and are visible here rather than hidden in the model):
+   * find(x, start) and token(char, start) answer "not found" / the empty token whenever start >= length(),
+     also for an empty needle ([find_from], [s_token]); token(set, start) is only specified for
+     start <= length() (the code reads at str + start).
+   * attach(str, len) is specified for off + len < |buffer| STRICTLY: one more byte of foreign memory must
+     be readable behind the window, because the C-string view inspects str[len] before deciding to copy.
+   * resize(n) beyond length() is the composite "resize, then write the n - length() exposed bytes
+     through operator char*()" ([OResize v n c] fills with c): the bytes resize() itself exposes are
+     indeterminate in the code and are never observed.
+   * printf / fromPrintf: the bytes vsnprintf produces are an argument of the operation.
+   * split into a HashSet is observed as the lexicographically sorted set of tokens. *)
 From Coq Require Import ZArith List Bool Arith Lia.
 From Common Require Import ListAux.
 Import ListNotations.
@@ -19,6 +47,11 @@ Inductive out :=
 | RInt (z : Z)
 | RCStr (l : list Z) (t : option Z)      (* bytes of the C-string view up to length(), byte at length() *)
 | RList (l : list (list Z)).
+
+(* queries through the static const char* helpers (on the C-string views of two values), and the
+   member equalsIgnoreCase(other, len) *)
+Inductive squery := QCompare | QCompareN (n : nat) | QCompareIC | QCompareICN (n : nat) | QEqualsICN (n : nat)
+                  | QStartsWith | QLength | QFindC (c : Z) | QFindLastC (c : Z).
 
 (* ---- operations (variables are numbered in creation order) ---- *)
 Inductive op :=
@@ -48,7 +81,11 @@ Inductive op :=
 | OStartsWith (v u : nat) | OEndsWith (v u : nat) | OLen (v : nat)
 (* arguments that point into the String's own text: p = the C-string view of variable v itself *)
 | OAppendOwn (v off len : nat)                   (* v.append(p + off, len) *)
-| OPrintfSelf (v : nat) (a b : list Z).          (* v.printf("<a>%s<b>", p) *)
+| OPrintfSelf (v : nat) (a b : list Z)           (* v.printf("<a>%s<b>", p) *)
+| OEqLit (v : nat) (l : list Z)                  (* v == "literal", v != "literal" (the array overloads) *)
+| OSplitSet (v : nat) (seps : list Z) (skipEmpty : bool)   (* split into a HashSet: the set of tokens *)
+| OFromPrintf (l : list Z)                       (* the static fromPrintf; l = the bytes vsnprintf produced; pushes *)
+| OStat (q : squery) (v u : nat).
 
 (* ---- pure reference functions ---- *)
 Definition is_byte (b : Z) : bool := (0 <=? b) && (b <? 256).
@@ -163,6 +200,27 @@ Fixpoint s_join (sep : Z) (ts : list (list Z)) : list Z :=
 
 Definition b2z (b : bool) : Z := if b then 1 else 0.
 
+(* a set of byte strings, printed in lexicographic order *)
+Fixpoint ins_uniq (x : list Z) (l : list (list Z)) : list (list Z) :=
+  match l with
+  | [] => [x]
+  | y :: t => let c := lexcmp x y in if c <? 0 then x :: l else if c =? 0 then l else y :: ins_uniq x t
+  end.
+Definition set_of (l : list (list Z)) : list (list Z) := fold_right ins_uniq [] l.
+
+Definition s_stat (q : squery) (a b : list Z) : Z :=
+  match q with
+  | QCompare => lexcmp a b
+  | QCompareN n => lexcmp (firstn n a) (firstn n b)
+  | QCompareIC => lexcmp (map lower a) (map lower b)
+  | QCompareICN n => lexcmp (map lower (firstn n a)) (map lower (firstn n b))
+  | QEqualsICN n => b2z (list_eqb (map lower (firstn n a)) (map lower (firstn n b)))
+  | QStartsWith => b2z (is_prefix b a)
+  | QLength => Z.of_nat (length a)
+  | QFindC c => oidx (find_first (P_chr c) a)
+  | QFindLastC c => oidx (find_last (P_chr c) a)
+  end.
+
 (* ---- the reference state: values + immutable foreign buffers ---- *)
 Record sstate := mksstate { svals : list value; sregs : list (list Z) }.
 Definition sinit : sstate := mksstate [] [].
@@ -206,6 +264,16 @@ Definition pre (s : sstate) (o : op) : bool :=
       has s v && cbytes l && cbytes (valof s v)
   | OAppendOwn v off len => has s v && (off + len <=? length (valof s v))%nat
   | OPrintfSelf v a b => has s v && cbytes a && cbytes b && cbytes (valof s v)
+  | OEqLit v l => has s v && cbytes l
+  | OSplitSet v seps _ => has s v && cbytes seps && cbytes (valof s v)
+  | OFromPrintf l => cbytes l
+  | OStat q v u =>
+      has s v && has s u &&
+      match q with
+      | QEqualsICN _ => true                             (* a member on the values: any byte strings *)
+      | QFindC c | QFindLastC c => is_byte c && cbytes (valof s v) && cbytes (valof s u)
+      | _ => cbytes (valof s v) && cbytes (valof s u)    (* const char* arguments: C strings *)
+      end
   end.
 
 Definition spec_exec (s : sstate) (o : op) : sstate * out :=
@@ -261,6 +329,10 @@ Definition spec_exec (s : sstate) (o : op) : sstate * out :=
   | OLen v => (s, RInt (Z.of_nat (length (valof s v))))
   | OAppendOwn v off len => (setval s v (valof s v ++ slice (valof s v) off len), RNone)
   | OPrintfSelf v a b => let l := a ++ valof s v ++ b in (setval s v l, RInt (Z.of_nat (length l)))
+  | OEqLit v l => (s, RInt (b2z (list_eqb (valof s v) l)))
+  | OSplitSet v seps skip => (s, RList (set_of (s_split seps (valof s v) skip)))
+  | OFromPrintf l => (pushval s l, RNone)
+  | OStat q v u => (s, RInt (s_stat q (valof s v) (valof s u)))
   end.
 
 Definition spec_step (s : sstate) (o : op) : option (sstate * out) :=
